@@ -136,6 +136,7 @@ class PEP(object):
             constraint._dual_variable_value = None
         for psd_matrix in self._list_of_psd_sent_to_wrapper:
             psd_matrix._dual_variable_value = None
+            psd_matrix.entries_dual_variable_value = None
         self.G_value = None
         self.F_value = None
         self.residual = None
@@ -783,8 +784,14 @@ class PEP(object):
                     message += " up to an error of {}".format(-lmi_dual_min_eig_val)
                 print(message)
             # - <psd_matrix, lmi_dual> <= 0
+            # Note the entries (i, j) and (j, i) of a matrix may be written as 2 different expressions
+            # (they are then implicitly constrained to be equal): each entry comes with its own dual value,
+            # whose symmetric part is lmi_dual.
             for psd_matrix in self._list_of_psd_sent_to_wrapper:
-                constraints_combination -= np.sum(psd_matrix.eval_dual() * psd_matrix.matrix_of_expressions)
+                entries_dual = psd_matrix.entries_dual_variable_value
+                if entries_dual is None:
+                    entries_dual = psd_matrix.eval_dual()
+                constraints_combination -= np.sum(entries_dual * psd_matrix.matrix_of_expressions)
 
         # Scalar constraints
         # Dual of inequality constraints >= 0
